@@ -1,6 +1,6 @@
 (* C18 — JSON delta and snapshot streams are well-formed and exact. *)
 From Coq Require Import List NArith Bool.
-From RV Require Import Base.Json Base.JsonDoc Base.JsonEmit C18.Model C18.Proofs C18.Spec.
+From RV Require Import Base.Json Base.JsonDoc Base.JsonEmit C18.Model C18.Proofs C18.Spec C18.SpecProofs.
 Import ListNotations.
 Local Open Scope N_scope.
 
@@ -31,6 +31,13 @@ Theorem C18_chunks_long : forall T cur ps,
   Forall (fun c => T < N.of_nat (List.length c)) (removelast (chunks_from T cur ps)).
 Proof. exact chunks_from_long. Qed.
 
+(* the executable oracle (lex the concatenated chunks, compare the tokens with those of the document
+   listing exactly the items, validate) accepts the chunks the model produces, for every header and
+   item list, and the case checker returns 0 on them *)
+Theorem C18_model_satisfies_spec : forall c, inputs_ok c = true ->
+  spec_okb (model_case c) = true /\ check_case (model_case c) = 0.
+Proof. exact model_satisfies_spec. Qed.
+
 Example C18_nonvacuous :
   let h := {| h_session := [49]; h_serial := [50]; h_from := [49]; h_generated := [51]; h_gentime := [52] |} in
   let d := [(IOrigin [65; 83; 49] [49; 47; 56] [56], false); (IAspa [65] [[66]; [67]], true)] in
@@ -40,3 +47,5 @@ Proof. repeat split. Qed.
 
 Check C18_delta_stream_exact : forall T h d, head_okb h = true -> forallb item_okb (map fst d) = true ->
   json_parse (concat (delta_stream T h d)) = Some (delta_doc h d).
+Check C18_model_satisfies_spec : forall c, inputs_ok c = true ->
+  spec_okb (model_case c) = true /\ check_case (model_case c) = 0.
